@@ -310,6 +310,33 @@ def check_property(prop, tier, seed, verbose=False):
         lines.append('  obligation: %s' % (o.name if ur is not None else o['name']))
         rc = 1
     if undecided and rc == 0:
+        # the proof machinery cannot decide (unsupported construct, lost anchor, rlimit ...). A refutation that
+        # replays on the real code is sound whatever the proof status: try the property's bounded witness search.
+        for rp in pcfg.get('replays', []):
+            if not rp.get('on_undecided'): continue
+            try:
+                from . import engines
+                w = {'driver': rp['driver'], 'bin': rp.get('bin', 'replay'), 'args': rp.get('args', {}), 'history': rp.get('history', '')}
+                rr = engines.replay_witness(w)
+                w['replayed_on_real_code'] = rr
+                if rr.get('reproduced'):
+                    m_ = re.search(r'FOUND hex=([0-9a-f]*)', rr.get('output', ''))
+                    if m_: w['args'] = {'mode': 'hex', 'text': m_.group(1)}
+                    os.makedirs(REPLAYS, exist_ok=True)
+                    path = os.path.join(REPLAYS, '%s-bounded-search.json' % prop)
+                    json.dump({'property': prop, 'obligation': 'bounded-search:%s (contract units undecided: %s)' % (rp['driver'], '; '.join(undecided)[:400]),
+                               'verifier': 'none (units undecided); refutation by bounded search on the real code',
+                               'verifier_output': rr.get('output', ''), 'failing_input': w,
+                               'how_to_replay': './check %s --replay %s' % (prop, path)}, open(path, 'w'), indent=1, ensure_ascii=False)
+                    lines.append('VIOLATION property=%s replay=%s' % (prop, path))
+                    lines.append('  obligation: bounded-search:%s found a failing input while the contract units are undecided' % rp['driver'])
+                    lines.append('  ' + rr.get('output', '').strip().split('\n')[0][:300])
+                    violations.append((rp['driver'], None, None))
+                    rc = 1
+                    break
+            except Exception as e:
+                lines.append('  (bounded search failed: %s)' % str(e)[:200])
+    if undecided and rc == 0:
         rc = 2
         for u in undecided: lines.append('UNDECIDED property=%s reason=%s' % (prop, u))
     level = pcfg.get('level', 'proof')
